@@ -171,6 +171,63 @@ def E1() -> bool:
     return run(body_E1, "X", {})
 
 
+# -- E2: acknowledged => flushed, with two logging threads --------------------------------
+def body_E2(ctx):
+    from engine.sched import Sched, Deadlock
+
+    sh = ctx.shard
+    f = CrashFile()
+    dest = FileDestination(file=f)
+    sched = Sched(ctx, watch={_output.__file__: {"__call__"}}, preemptions=sh.get("P", 3))
+    nmsg = sh.get("msgs", 1)
+
+    def mk(t):
+        def work():
+            for i in range(nmsg):
+                m = {"task_uuid": "u%d" % t, "task_level": [i + 1], "timestamp": 1.0, "message_type": "t:m", "who": t}
+                dest(m)
+                f.events.append(("ack", t, i))
+
+        return work
+
+    for t in range(sh.get("threads", 2)):
+        sched.spawn(mk(t), "T%d" % t)
+    try:
+        sched.run()
+    except Deadlock as e:
+        ctx.fail(str(e))
+    for w in sched.workers:
+        ctx.check(w.exc is None, "worker died with %r", w.exc)
+    # a crash right after any ack: everything written before the last flush is durable
+    ev = f.events
+    for k, e in enumerate(ev):
+        if e[0] != "ack":
+            continue
+        t, i = e[1], e[2]
+        flushed = b""
+        pending = b""
+        for x in ev[:k]:
+            if x[0] == "write":
+                pending += x[1]
+            elif x[0] == "flush":
+                flushed += pending
+                pending = b""
+        lines = flushed.split(b"\n")[:-1]
+        mine = [json.loads(l) for l in lines if json.loads(l)["task_uuid"] == "u%d" % t]
+        ctx.check(len(mine) >= i + 1, "the call logging message %d of thread %d returned, but a crash at that instant leaves only %d of its messages in the file (unflushed: %r); events %s; schedule %s", i, t, len(mine), pending[:60], "".join(x[0][0] for x in ev[:k]), sched.render())
+    if sched.switches >= 2:
+        ctx.nontrivial(tuple(ctx.trace))
+        ctx.reached("interleaved")
+    ctx.sample({"events": "".join(x[0][0] for x in ev), "schedule": sched.render(8)})
+
+
+def E2() -> bool:
+    """
+    post: _
+    """
+    return run(body_E2, "X", {})
+
+
 def _shards(tier):
     N, D = (4, 3) if tier == "quick" else (5, 3)
     profiles = [{}, {"open": 1}, {"open": 3}, {"msg": 4}, {"exc": 2}, {"fin": 1}]
@@ -180,6 +237,21 @@ def _shards(tier):
         out += [dict(base, prefix=q) for q in enumerate_prefixes(body_E1, "X", {}, base, 2 if tier == "quick" else 3)]
     return out
 
+
+OBLIGATIONS_TAIL = [
+    Ob(
+        "E2",
+        E2,
+        body_E2,
+        "X",
+        desc="two threads logging through one FileDestination: at the instant each logging call returns, its line has been written and flushed (crash right after any acknowledgement)",
+        functions=["FileDestination.__call__"],
+        shards={"quick": [{"threads": 2, "msgs": 1, "P": 3}], "thorough": [{"threads": 2, "msgs": 2, "P": 3}, {"threads": 3, "msgs": 1, "P": 2}]},
+        twin=[{"threads": 2, "msgs": 1, "P": 3, "twin_label": "interleaved"}],
+        timeout={"quick": 100, "thorough": 900},
+        bounds={"quick": "2 threads x 1 message, <= 3 preemptions at line granularity in FileDestination.__call__", "thorough": "2 threads x 2 messages; 3 threads x 1 message with <= 2 preemptions"},
+    ),
+]
 
 OBLIGATIONS = [
     Ob(
@@ -195,3 +267,4 @@ OBLIGATIONS = [
         bounds={"quick": "programs <= 4 ops (baseline) / <= 3 ops (5 other style profiles), depth <= 3; every crash instant; cut classes {nothing, strictly inside, whole}", "thorough": "programs <= 5 / <= 4 ops"},
     ),
 ]
+OBLIGATIONS += OBLIGATIONS_TAIL
